@@ -720,22 +720,35 @@ def differential(ctx: fw.Ctx) -> None:
     if not ok:
         ctx.correspondence_break('model build', logtxt[-1500:])
         return
+    from kv.props import c06_daemon
+    ok, logtxt = fw.build_models([c06_daemon.MODEL])
+    if not ok:
+        ctx.correspondence_break('model build', logtxt[-1500:])
+        return
     ctx.matchers['F601'] = c06_trace.match_f601
     env = Env()
     D: dict[str, list[fw.Case]] = {k: [] for k in ('fz_ongoing', 'fz_blocked', 'fz_block', 'fz_allow', 'fz_edit', 'fz_patch_obj', 'fz_decide')}
     try:
-        run_finalizers(ctx, env, D, ctx.scale(300, 2500))
+        run_finalizers(ctx, env, D, ctx.scale(250, 2500))
         run_patch_obj(ctx, env, D, ctx.scale(300, 2500))
-        run_decide(ctx, env, D, ctx.scale(1200, 6000))
-        traces = c06_trace.run(ctx, env, ctx.scale(250, 2000))
+        run_decide(ctx, env, D, ctx.scale(1000, 6000))
+        traces = c06_trace.run(ctx, env, ctx.scale(180, 2000))
+        stops = c06_daemon.run_stop(ctx, env, ctx.scale(600, 6000))
+        dtraces = c06_daemon.run_traces(ctx, env, ctx.scale(120, 1500))
     finally:
         env.close()
     for name, cases in D.items():
         ctx.differential(name, HEADER, cases, shard=150)
     ctx.differential('fl_trace', c06_trace.HEADER, traces, shard=40)
+    ctx.differential('fd_stop', c06_daemon.HEADER, stops, shard=150)
+    ctx.differential('fd_trace', c06_daemon.HEADER, dtraces, shard=40)
     ctx.notes.append(RULE_FN + '; traces = (registry variant [filtered / unfiltered / shared id / optional only] x handler outcome scripts x list of '
                      'actions: cycle [with a foreign write before the n-th request], foreign finalizer add/remove, label on/off, spec edit, delete, '
-                     'restart) run through the real process_resource_event and replayed in the Gallina acceptor; non-trivial iff a request was refused (422)')
+                     'restart) run through the real process_resource_event and replayed in the Gallina acceptor; non-trivial iff a request was refused (422); '
+                     'stop = (daemon/timer x cancellation_backoff x cancellation_timeout x polling x reason x stopper state x age x task script), '
+                     'non-trivial iff the stopper was set before or the outcome is not "still stopping"; daemon traces = (D filtered/unfiltered, with/without H) x '
+                     'daemon behaviour [obeys flag / obeys late / dies of cancel / survives cancel / exits on its own] x (backoff, timeout) x actions incl. clock '
+                     'ticks, under virtual time with real daemon tasks; non-trivial iff the task was cancelled or abandoned')
 
 
 def replay(ctx: fw.Ctx, body: dict) -> bool:
@@ -750,6 +763,12 @@ def replay(ctx: fw.Ctx, body: dict) -> bool:
         if what == 'trace':
             w = c06_trace.run_scenario(env, case['scenario'])
             c06_trace.monitors(ctx, case['scenario'], w)
+        elif what == 'dtrace':
+            from kv.props import c06_daemon
+            c06_daemon.run_traces(ctx, env, 0, only=[case['scenario']])
+        elif what == 'stop':
+            from kv.props import c06_daemon
+            c06_daemon.run_stop(ctx, env, 0, only=[case])
         elif what == 'decide':
             fo = bool(case.get('forever_stopped'))
             params = (REGISTRIES.index([tuple(x) for x in case['registry']]), case['finalizers'], case['deleting'], case['labelled'], case['event'],
